@@ -26,71 +26,75 @@ Qed.
 Lemma firstn_skipn_len {A} n (l : list A) : (length (skipn n l) = length l - n)%nat.
 Proof. apply skipn_length. Qed.
 
+Lemma read_irrel : forall f1 f2 data r,
+  (length data <= f1)%nat -> (length data <= f2)%nat -> read_tlv_f f1 data r = read_tlv_f f2 data r.
+Proof.
+  induction f1 as [|f1 IH]; intros f2 data r H1 H2.
+  - destruct data as [|a [|b t]]; simpl in *; try reflexivity; try lia. destruct f2; reflexivity.
+  - destruct data as [|a [|b t]]; try (destruct f2; reflexivity).
+    destruct f2 as [|f2]; [simpl in H2; lia|].
+    cbn [read_tlv_f]. apply IH; rewrite skipn_length; simpl in *; lia.
+Qed.
+
+Lemma chunk_step tag v : v <> [] -> forall f,
+  chunks (S f) tag v = tag :: N.of_nat (length (firstn 255 v)) :: firstn 255 v ++ chunks f tag (skipn 255 v).
+Proof. intros Hv f. cbn [chunks]. destruct v; [congruence|reflexivity]. Qed.
+
+(* one fragment: header, up to 255 bytes, then whatever follows *)
+Lemma read_fragment tag c rest r rf :
+  (length c <= 255)%nat -> (length (tag :: N.of_nat (length c) :: c ++ rest) <= rf)%nat ->
+  read_tlv_f rf (tag :: N.of_nat (length c) :: c ++ rest) r =
+  read_tlv_f (length rest) rest (upd tag c r).
+Proof.
+  intros Hc Hrf. destruct rf as [|rf']; [simpl in Hrf; lia|].
+  cbn [read_tlv_f]. rewrite Nat2N.id.
+  rewrite (firstn_app (length c)), firstn_all, Nat.sub_diag, firstn_O, app_nil_r.
+  rewrite (skipn_app (length c)), skipn_all, Nat.sub_diag, skipn_O. cbn [app].
+  apply read_irrel; [|lia]. cbn [length] in Hrf. rewrite app_length in Hrf. lia.
+Qed.
+
 (* reading the fragments of one value appends the value to the entry of its tag *)
 Lemma read_chunks : forall fuel tag v rest r1 x r2 rf,
   (length v <= fuel)%nat -> ~ In tag (keys r1) ->
   (length (chunks fuel tag v ++ rest) <= rf)%nat ->
   read_tlv_f rf (chunks fuel tag v ++ rest) (r1 ++ (tag, x) :: r2) =
-  read_tlv_f (rf - (length (chunks fuel tag v)))%nat rest (r1 ++ (tag, x ++ v) :: r2).
+  read_tlv_f (length rest) rest (r1 ++ (tag, x ++ v) :: r2).
 Proof.
   induction fuel as [|f IH]; intros tag v rest r1 x r2 rf Hf Hk Hrf.
-  - destruct v; [|simpl in Hf; lia]. simpl. rewrite app_nil_r, Nat.sub_0_r. reflexivity.
+  - destruct v; [|simpl in Hf; lia]. cbn [chunks app] in *. rewrite app_nil_r. now apply read_irrel.
   - destruct v as [|b v'] eqn:Ev.
-    + simpl. rewrite app_nil_r, Nat.sub_0_r. reflexivity.
+    + cbn [chunks app] in *. rewrite app_nil_r. now apply read_irrel.
     + rewrite <- Ev in *. assert (Hv: v <> []) by (subst; discriminate).
-      assert (Hc: chunks (S f) tag v = tag :: N.of_nat (length (firstn 255 v)) :: firstn 255 v ++ chunks f tag (skipn 255 v)).
-      { cbn [chunks]. destruct v; [congruence|reflexivity]. }
-      rewrite Hc in *. cbn [app] in *.
-      destruct rf as [|rf']; [simpl in Hrf; lia|].
-      cbn [read_tlv_f]. rewrite Nat2N.id.
-      rewrite <- app_assoc.
-      assert (Hl: length (firstn 255 v) = length (firstn 255 v)) by reflexivity.
-      rewrite (firstn_app (length (firstn 255 v))), firstn_all, Nat.sub_diag, firstn_O, app_nil_r.
-      rewrite (skipn_app (length (firstn 255 v))), skipn_all, Nat.sub_diag, skipn_O. cbn [app].
+      rewrite (chunk_step tag v Hv) in *. cbn [app] in *. rewrite <- app_assoc in *.
+      rewrite read_fragment; [|apply firstn_le_length|exact Hrf].
       rewrite upd_existing by assumption.
       rewrite IH.
-      * rewrite <- app_assoc, firstn_skipn. f_equal. cbn [length]. rewrite app_length. lia.
+      * rewrite <- app_assoc, firstn_skipn. reflexivity.
       * rewrite skipn_length. subst v. cbn [length] in *. lia.
       * assumption.
-      * cbn [length] in Hrf. rewrite !app_length in Hrf. rewrite app_length. lia.
+      * lia.
 Qed.
-
-Lemma chunks_nonempty_length fuel tag v : v <> [] -> (0 < fuel)%nat -> (2 <= length (chunks fuel tag v))%nat.
-Proof. intros Hv Hf. destruct fuel; [lia|]. destruct v; [congruence|]. cbn [chunks length]. lia. Qed.
 
 (* reading one written item adds exactly that item *)
 Lemma read_item : forall tag v rest r rf,
   ~ In tag (keys r) -> (length (write_item tag v ++ rest) <= rf)%nat ->
   read_tlv_f rf (write_item tag v ++ rest) r =
-  read_tlv_f (rf - length (write_item tag v))%nat rest (r ++ [(tag, v)]).
+  read_tlv_f (length rest) rest (r ++ [(tag, v)]).
 Proof.
   intros tag v rest r rf Hk Hrf. unfold write_item in *. destruct v as [|b v'] eqn:Ev.
-  - cbn [app] in *. destruct rf as [|rf']; [simpl in Hrf; lia|].
-    cbn [read_tlv_f]. simpl N.to_nat. rewrite firstn_O, skipn_O. rewrite upd_new by assumption.
-    f_equal. simpl. lia.
+  - change ([tag; 0] ++ rest) with (tag :: N.of_nat (length (@nil N)) :: [] ++ rest) in *.
+    rewrite read_fragment; [|simpl; lia|exact Hrf]. now rewrite upd_new.
   - rewrite <- Ev in *. assert (Hv: v <> []) by (subst; discriminate).
-    (* first fragment creates the entry, the remaining ones extend it *)
     destruct (length v) as [|f] eqn:El; [destruct v; simpl in El; congruence|].
-    assert (Hc: chunks (S f) tag v = tag :: N.of_nat (length (firstn 255 v)) :: firstn 255 v ++ chunks f tag (skipn 255 v)).
-    { cbn [chunks]. destruct v; [congruence|reflexivity]. }
-    rewrite Hc in *. cbn [app] in *.
-    destruct rf as [|rf']; [simpl in Hrf; lia|].
-    cbn [read_tlv_f]. rewrite Nat2N.id. rewrite <- app_assoc.
-    rewrite (firstn_app (length (firstn 255 v))), firstn_all, Nat.sub_diag, firstn_O, app_nil_r.
-    rewrite (skipn_app (length (firstn 255 v))), skipn_all, Nat.sub_diag, skipn_O. cbn [app].
+    rewrite (chunk_step tag v Hv) in *. cbn [app] in *. rewrite <- app_assoc in *.
+    rewrite read_fragment; [|apply firstn_le_length|exact Hrf].
     rewrite upd_new by assumption.
     replace (r ++ [(tag, firstn 255 v)]) with (r ++ (tag, firstn 255 v) :: []) by reflexivity.
     rewrite read_chunks.
-    + rewrite firstn_skipn. f_equal. cbn [length]. rewrite app_length. lia.
+    + rewrite firstn_skipn. reflexivity.
     + rewrite skipn_length. lia.
     + assumption.
-    + cbn [length] in Hrf. rewrite !app_length in Hrf. rewrite app_length. lia.
-Qed.
-
-Lemma write_item_length tag v : (2 <= length (write_item tag v))%nat.
-Proof.
-  unfold write_item. destruct v as [|b v'] eqn:E; [simpl; lia|].
-  apply chunks_nonempty_length; [discriminate|simpl; lia].
+    + lia.
 Qed.
 
 Lemma read_write_gen : forall d r rf,
@@ -106,7 +110,7 @@ Proof.
     rewrite IH.
     + rewrite <- app_assoc. reflexivity.
     + unfold keys in *. rewrite map_app. cbn [map fst]. rewrite <- app_assoc. exact Hnd.
-    + rewrite app_length in Hrf. lia.
+    + lia.
 Qed.
 
 (* Every dict with distinct tags reads back identically, whatever the value lengths
@@ -140,6 +144,6 @@ Theorem write_tlv_wf d : Forall (fun kv => fst kv < 256 /\ wf_bytes (snd kv)) d 
 Proof.
   induction d as [|[t v] d IH]; intro H; cbn [write_tlv flat_map]; [constructor|].
   inversion H as [|? ? [Ht Hv] Hd]; subst. apply wf_bytes_app. split; [|now apply IH].
-  unfold write_item. cbn [fst snd] in *. destruct v; [repeat constructor; [assumption|lia]|].
+  unfold write_item. cbn [fst snd] in *. destruct v; [constructor; [assumption|constructor; [lia|constructor]]|].
   now apply chunks_wf.
 Qed.
